@@ -119,14 +119,16 @@ def run_fault(ctx: Ctx, api, P, kind, pos, call, reps):
         fr = call.get("freeze", ())
         if api == "backward":
             rerr, rg, _ = real_backward(P, torch.float64, call["tensors"], call["inputs"], call["agg"],
-                                        call["chunk"], False, pre, report, freeze=fr)
+                                        call["chunk"], False, pre, report, freeze=fr,
+                                        inputs_kind=("list", "gen", "tuple", "iter", "dictkeys")[rep % 5])
             m_inputs = call["inputs"] if call["inputs"] is not None else sorted(P.reach_leaves(call["tensors"]))
             merr, mg, _ = model_backward(ctx.driver, P, call["tensors"], list(dict.fromkeys(m_inputs)),
                                          call["agg"], call["chunk"], False, pre, report, freeze=fr)
         else:
             retain = True
             rerr, rg, _ = real_mtl(P, torch.float64, call["losses"], call["features"], call["tasks"],
-                                   call["shared"], call["agg"], call["chunk"], retain, pre, report, freeze=fr)
+                                   call["shared"], call["agg"], call["chunk"], retain, pre, report, freeze=fr,
+                                   as_generators=(rep % 2 == 1))        # parameter groups as one-shot iterables
             merr, mg, _ = model_mtl(ctx.driver, P, call["losses"], call["features"],
                                     call["tasks"] if call["tasks"] is not None else call["m_tasks"],
                                     call["shared"] if call["shared"] is not None else call["m_shared"],
@@ -172,6 +174,6 @@ def main(ctx: Ctx):
         rule="malformed stream: every rejection kind of backward / mtl_backward (non-positive chunk, empty "
              "tensors/features/losses, non-scalar loss, count mismatch, overlap, duplicates, non-leaf / "
              "not-requiring-grad parameter, aggregator rejecting the Jacobian) at every position of the argument "
-             "lists, on random P-int programs with random pre-existing .grad, each repeated on fresh tensors (set "
+             "lists (parameter collections passed as lists and as one-shot iterables), on random P-int programs with random pre-existing .grad, each repeated on fresh tensors (set "
              "iteration order varies); observable: exception + .grad snapshot of all leaves",
         trusted=TRUSTED)
